@@ -31,6 +31,11 @@ type Port struct {
 	// This is used to check if an external command killed by SIGPIPE is caused
 	// by the termination of the reader of the pipe.
 	readerGone *atomic.Bool
+
+	// Set in the input end of the pipe between two commands in a pipeline. The
+	// channel of such a port is closed by the writer, so it must never be used
+	// for value output, even if the port gets duplicated onto an output port.
+	pipeInput bool
 }
 
 // ErrPortDoesNotSupportValueOutput is thrown when writing to a port that does
